@@ -220,6 +220,8 @@ SIG_JUMP = 'dead-branch-break-continue-escapes-scope-block'
 SIG_PARAMS = 'strict-nonsimple-params-direct-eval'
 SIG_FINALLY = 'exception-in-finally-caught-by-own-catch'
 SIG_EVALFN = 'sloppy-eval-function-declaration-misses-eval-lexical-scope'
+SIG_LEXDEAD = 'lexical-declaration-in-dead-code-rejected'
+LEXDEAD_MSG = 'Compiler bug: Lexical declaration for an unbound name'
 BADKINDS = ('PANIC', 'SYNTAXERROR', 'ERROR', 'CRASH')
 
 
@@ -272,6 +274,11 @@ def classify_failure(harness, model, seed, i, f):
     try:
         if pair_ok(harness, model, prog, var, strict, pl):
             return None                      # does not reproduce in isolation: leave it unclassified
+        if G.lexical_decl_in_dead_code(var) or G.lexical_decl_in_dead_code(prog):
+            g = run_harness(harness, [json.dumps({'id': 'v', 'src': placement_src(var, pl), 'strict': strict, 'timeout_ms': 3000}),
+                                      json.dumps({'id': 'o', 'src': placement_src(prog, pl), 'strict': strict, 'timeout_ms': 3000})])
+            if any(LEXDEAD_MSG in g.get(k, {}).get('full', '') for k in ('v', 'o')):
+                return SIG_LEXDEAD           # goja rejects the (valid) program with exactly this internal error
         if pl == 'eval' and not strict and (G.toplevel_fdecl_and_lexical(var) or G.toplevel_fdecl_and_lexical(prog)) \
                 and pair_ok(harness, model, prog, var, strict, 'global') and pair_ok(harness, model, prog, var, True, 'eval'):
             return SIG_EVALFN                # only the sloppy direct-eval placement fails, and the pattern is present
